@@ -199,4 +199,94 @@ theorem encode_mem_alphabet (bs : List UInt8) (hlen : 0 < bs.length) (s : List C
   obtain ⟨n, _, rfl⟩ := List.mem_map.mp hc
   exact getD_alphabet_mem (Nat.mod_lt _ (by decide))
 
+
+/-! ## the encoder as a positional numeral: `numeralValue (encode bs) = leValue bs` -/
+
+theorem leValue_lt (bs : List UInt8) : leValue bs < 2 ^ (8 * bs.length) := by
+  induction bs with
+  | nil => simp [leValue]
+  | cons b rest ih =>
+    have hb : b.toNat < 2 ^ 8 := UInt8.toNat_lt b
+    have e : 2 ^ (8 * (b :: rest).length) = 256 * 2 ^ (8 * rest.length) := by
+      rw [List.length_cons, Nat.mul_add, Nat.pow_add, Nat.mul_comm]
+    rw [e, leValue]
+    have h256 : (2 : Nat) ^ 8 = 256 := rfl
+    omega
+
+theorem bitOf_eq_testBit (bs : List UInt8) (k : Nat) : bitOf bs k = (leValue bs).testBit k := by
+  induction bs generalizing k with
+  | nil => simp [bitOf, leValue]
+  | cons b rest ih =>
+    have hb : b.toNat < 2 ^ 8 := UInt8.toNat_lt b
+    have e : leValue (b :: rest) = 2 ^ 8 * leValue rest + b.toNat := by
+      rw [leValue, show (2 : Nat) ^ 8 = 256 from rfl]; omega
+    rw [e, Nat.testBit_two_pow_mul_add _ hb]
+    by_cases hk : k < 8
+    · have e1 : k / 8 = 0 := by omega
+      have e2 : k % 8 = k := by omega
+      simp [bitOf, hk, e1, e2]
+    · have e1 : k / 8 = (k - 8) / 8 + 1 := by omega
+      have e2 : k % 8 = (k - 8) % 8 := by omega
+      rw [if_neg hk, ← ih (k - 8)]
+      simp [bitOf, e1, e2]
+
+theorem digitTot_mod (bs : List UInt8) (n : Nat) :
+    digitTot bs n % 32 = leValue bs / 32 ^ n % 32 := by
+  apply Nat.eq_of_testBit_eq
+  intro m
+  rw [show (32 : Nat) = 2 ^ 5 from rfl, Nat.testBit_mod_two_pow, Nat.testBit_mod_two_pow,
+    ← Nat.pow_mul, Nat.testBit_div_two_pow]
+  by_cases hm : m < 5
+  · rw [digitTot_testBit bs n m hm, bitOf_eq_testBit, Nat.mul_comm 5 n, Nat.add_comm m]
+  · simp [hm]
+
+theorem alphaIndex_getD {d : Nat} (hd : d < 32) : alphaIndex (alphabet.getD d '0') = some d := by
+  have hd' : d < alphabet.length := by rw [alphabet_length]; exact hd
+  unfold alphaIndex
+  rw [List.getD_eq_getElem?_getD, List.getElem?_eq_getElem hd']
+  simp only [Option.getD_some]
+  rw [List.Nodup.idxOf_getElem alphabet_nodup d hd']
+  simp [hd']
+
+/-- most-significant-first digits `N-1 … 0` of `v`, folded from an accumulator `a` -/
+theorem numeral_fold (v : Nat) (N a : Nat) :
+    ((List.range N).reverse.map fun n => alphabet.getD (v / 32 ^ n % 32) '0').foldl
+      numeralStep (some a)
+    = some (a * 32 ^ N + v % 32 ^ N) := by
+  induction N generalizing a with
+  | zero => simp [Nat.mod_one]
+  | succ N ih =>
+    rw [List.range_succ, List.reverse_append]
+    simp only [List.reverse_cons, List.reverse_nil, List.nil_append, List.cons_append, List.map_cons,
+      List.foldl_cons]
+    rw [show numeralStep (some a) (alphabet.getD (v / 32 ^ N % 32) '0') = some (a * 32 + v / 32 ^ N % 32) by
+      unfold numeralStep; rw [alphaIndex_getD (Nat.mod_lt _ (by decide : 0 < 32))]]
+    rw [ih, Nat.mod_pow_succ, Nat.pow_succ]
+    congr 1
+    rw [Nat.add_mul, Nat.mul_assoc, Nat.mul_comm 32 (32 ^ N), Nat.mul_comm (v / 32 ^ N % 32)]
+    omega
+
+theorem pow32_ge (len : Nat) (hlen : 0 < len) : 2 ^ (8 * len) ≤ 32 ^ ndigits len := by
+  rw [show (32 : Nat) = 2 ^ 5 from rfl, ← Nat.pow_mul]
+  apply Nat.pow_le_pow_right (by decide)
+  unfold ndigits
+  omega
+
+theorem numeralValue_encode (bs : List UInt8) (hlen : 0 < bs.length) (s : List Char)
+    (h : encode bs = some s) : numeralValue s = some (leValue bs) := by
+  rw [encode_eq bs hlen] at h
+  rw [← Option.some.inj h]
+  have : ((List.range (ndigits bs.length)).reverse.map fun n => alphabet.getD (digitTot bs n % 32) '0')
+      = ((List.range (ndigits bs.length)).reverse.map
+          fun n => alphabet.getD (leValue bs / 32 ^ n % 32) '0') := by
+    apply List.map_congr_left
+    intro n _
+    rw [digitTot_mod]
+  rw [this]
+  unfold numeralValue
+  rw [numeral_fold, Nat.zero_mul, Nat.zero_add]
+  congr 1
+  apply Nat.mod_eq_of_lt
+  exact Nat.lt_of_lt_of_le (leValue_lt bs) (pow32_ge bs.length hlen)
+
 end Server
